@@ -144,6 +144,7 @@ func runCase(r *lib.Run, idx int, maxRound, maxSweeps *atomic.Int64) {
 		r.Count("schedules_reaching_round>=2", 1)
 	}
 	if s.violated {
+		r.Count("violating_schedules_"+tplNames[kind], 1)
 		return
 	}
 	for {
